@@ -7,7 +7,7 @@ ASSUMPTIONS = __import__("vlib.c02", fromlist=["ASSUMPTIONS"]).ASSUMPTIONS
 
 
 def explore(ctx):
-    r = W.explore(dict(ctx, seed=ctx["seed"] + 1000), "C03", {"not-a-prefix"}, n_quick=10, n_thorough=80, big=False)
+    r = W.explore(dict(ctx, seed=ctx["seed"] + 1000), "C03", {"not-a-prefix"}, n_quick=16, n_thorough=120, big=False)
     r["violations"] = [(d, t) for (d, t, _) in r["violations"]][:3]
     return r
 
